@@ -511,6 +511,7 @@ func doReplay(bin, prop, path string, verbose bool) int {
 		Type     string   `json:"type"`
 		Hit      bool     `json:"hit"`
 		Diverged string   `json:"diverged"`
+		Loose    bool     `json:"loose"`
 		Viols    []string `json:"viols"`
 		Msg      string   `json:"msg"`
 		Oracle   string   `json:"oracle"`
@@ -531,7 +532,7 @@ func doReplay(bin, prop, path string, verbose bool) int {
 			fmt.Println("  ", l)
 		}
 	}
-	if res.Diverged != "" {
+	if res.Diverged != "" && !(res.Loose && res.Hit) {
 		fmt.Printf("replay of %s diverged: %s\n", path, res.Diverged)
 		return 2
 	}
